@@ -19,6 +19,20 @@ BUILT = {
         note='Trusted: TLC, the 60-line replay driver, numpy. Bounded: axis lengths <= 12, histories <= 3 (quick) / 4 (thorough); '
              'pad modes constant/edge/wrap (reflect not modelled); dyadic Q menu.',
         technique='TLA+ spec (Grid.tla) model-checked with TLC; every TLC behaviour replayed into prysm and compared cell by cell'),
+    'C01': dict(
+        spec='Dft.tla, Executors.tla, ExecutorsTrace.tla',
+        text='Dft.tla writes the three routes out in exact arithmetic (roots of unity as exponents mod L): the matrix triple product with both '
+             'coordinate vectors shifted, pad + full-period FFT, and the Bluestein chirp-Z factorisation with its circular kernel buffer. TLC '
+             'proves for every axis configuration of the bounded menu (all parities, Q, output sizes, shifts, both directions, three buffer '
+             'sizes) that each route equals the textbook Fourier sum exactly, or up to a per-output phase when shifted; the pinned chirp-Z index '
+             'arithmetic is kept as a variant that must violate the law. Every emitted 2-D configuration (row axis x column axis) is replayed into '
+             'mdft.dft2/idft2, czt.czt2/iczt2, propagation.focus/unfocus, focus_/unfocus_fixed_sampling (both methods) and the Wavefront methods and '
+             'compared with the exact kernel. Executors.tla is the cache/precision/clear() history machine: TLC covers every history of any '
+             'length (finite state space), bounded histories and simulate walks are replayed into the real shared executors, and the executions '
+             'recorded from the real code are validated against ExecutorsTrace.tla (caches hidden, bound through nbytes()).',
+        note='Trusted: TLC, the exact-kernel interpreter (cos/sin with exact argument reduction), numpy matmul. Bounded: axis lengths <= 6 in / 7 out '
+             '(quick), 9/10 (thorough); dyadic Q and shift menus; shifted cases compared in modulus only, as the property allows.',
+        technique='TLA+ specs (Dft.tla exact kernels, Executors.tla history machine) checked by TLC; behaviours replayed into prysm; recorded executor traces validated against ExecutorsTrace.tla'),
 }
 
 NOT_BUILT_REASON = 'not built yet in this round (specification planned in DESIGN.md section 4; never decided by another technique)'
